@@ -138,6 +138,8 @@ op("drop_c", "df", lambda x: x.drop(columns=["c"]), tier=2)
 op("dropdup_a", "df", lambda x: x.drop_duplicates(subset=["a"]), order="lose", labels="lose", osens=True, tier=2)
 op("dropdup", "any", lambda x: x.drop_duplicates(), order="lose", labels="lose", tier=2)
 op("isin_a", "df", lambda x: x[x["a"].isin([1, 4, 6])], tier=2)
+# a value container holding LAZY elements (a scalar reduction next to literals): the container is imported into the graph
+op("isin_lazy", "df", lambda x: x[x["a"].isin([x["a"].min(), 4])] if not isinstance(x, pd.DataFrame) else x[x["a"].isin([x["a"].min(), 4])], tier=2)
 op("abs", "any", lambda x: x.abs(), tier=2)
 op("isna", "any", lambda x: x.isna(), tier=2)
 op("add1", "any", lambda x: x + 1, tier=2)
@@ -411,6 +413,28 @@ op("part_slice", "any", lambda x: x.partitions[1:], pd=None, tags=("psens", "das
 op("to_frame_named", "s", lambda x: x.to_frame(name="nm"), tier=3)
 op("s_between_filter", "s", lambda x: x[x.between(1, 4)], tier=3)
 op("s_isin_idx", "df", lambda x: x[x.index.isin([1, 3, 5, 7])] if isinstance(x, pd.DataFrame) else x[x.index.to_series().isin([1, 3, 5, 7])], lsens=True, tier=3)
+
+
+# producers whose projection rules were reported broken by seed-writing sub-agents on the unchanged tree (wave 3): the
+# selection on top comes from C04's selection enumeration and from the (=3, core0) pair stage of the E1 checks
+def _num3(x):
+    return x[["a", "u", "d"]]
+
+
+op("where_frame_cond", "df", lambda x: _num3(x).where(_num3(x) > 1), tier=3)
+op("add_suffix_empty", "df", lambda x: x.add_suffix(""), tier=3)
+op("gb_d_cov", "df", lambda x: x.groupby("d")[["a", "b", "u"]].cov(), order="lose", labels="new", tier=3)
+op("concat_ax1_T2_outer", "df", lambda x: _concat([x[["a", "u"]], _T2(x)[["e"]]], axis=1), lsens=True, tier=3)
+op("concat_ax1_T2_inner", "df", lambda x: _concat([x[["a", "u"]], _T2(x)[["e"]]], axis=1, join="inner"), lsens=True, tier=3)
+op("add_frames_unaligned", "df", lambda x: x[["a", "u"]] + _other_layout(x, ["a", "b"]), lsens=True, tier=3)
+op("add_diffcols", "df", lambda x: x[["a", "b"]] + x[["b", "u"]], tier=3)
+op("clip_frame", "df", lambda x: x[["a", "b", "u"]].clip(lower=1), tier=3)
+op("sum_frame3", "df", lambda x: x[["a", "b", "u"]].sum(), order="sorted", labels="new", tier=3)
+op("gb_d_rolling", "df", lambda x: x.groupby("d")[["a", "u"]].rolling(2).sum(), order="lose", labels="lose", osens=True, tier=3)
+op("mode_frame", "df", lambda x: x[["a", "d"]].mode(), labels="lose", tier=3)
+op("merge_lr_on_collide", "df", lambda x: x[["a", "u"]].merge(_T2(x), left_on="a", right_on="e"), order="lose", labels="lose", tier=3, tags=("dup",))
+op("sum_sel_a", "df", lambda x: x[["a", "b", "u"]].sum()[["a"]], order="sorted", labels="new", tier=3)
+op("clip_index_sel", "df", lambda x: x[["a", "b", "u"]].clip(lower=1)[pd.Index(["a", "b"])], tier=3)
 
 
 def _map_fn(v):
